@@ -36,6 +36,9 @@ type C13ChurnScenario struct {
 	// loop) while more streams than its backlog holds (1024) are opened and
 	// written to; it resumes once every opener has written
 	AcceptStall bool `json:"accept_stall,omitempty"`
+	// CloseTwice: when everything is over, two tasks close the opener's session
+	// at the same time (an explicit close racing a timer, a termination, ...)
+	CloseTwice bool `json:"close_twice,omitempty"`
 }
 
 func genC13Churn(g *Gen) any {
@@ -52,6 +55,7 @@ func genC13Churn(g *Gen) any {
 		sc.Sess.Stalls = nil // both connections deliver while the backlog fills
 		sc.NStream, sc.Batch = g.Int(1028, 1045), 64
 	}
+	sc.CloseTwice = !sc.LongLived && g.Bool(0.4)
 	for i := 0; i < sc.NStream; i++ {
 		if sc.AcceptStall {
 			// (the frames of one stream travel on different connections)
@@ -204,6 +208,13 @@ func runC13Churn(c *Ctx, scAny any) {
 			for running > 0 && !(sc.AcceptStall && written == opened) {
 				Sleep(25 * time.Millisecond)
 			}
+		}
+		if sc.CloseTwice {
+			for running > 0 {
+				Sleep(25 * time.Millisecond)
+			}
+			simsync.Go("h:close-a", func() { sw.C.Close() })
+			simsync.Go("h:close-b", func() { sw.C.Close() })
 		}
 	})
 	end := c.Drive(func() bool { return false })
